@@ -15,7 +15,7 @@ RULE = ("case = random grammar (recursive, epsilon, wide alternatives up to 40 s
         "non-trivial = tree with >= 3 nodes (pairs of distinct nodes exist); distinct by tree hash. "
         "coverage.pair_evaluations counts single predicate evaluations")
 ASSUMPTIONS = ["consecutive is judged strictly on leaf pairs only (documentation says 'leaves'); on other pairs only consecutive => before",
-               "nth is judged strictly when the two nodes carry different labels, level when neither node is labelled with the level nonterminal (documentation leaves the other corners open); convention-independent consequences are checked on all pairs"]
+               "nth is judged strictly when the two nodes carry different labels (documentation leaves the other corner open); level is judged strictly on every pair on which three readings of the informal description coincide (they differ only where an argument or the root is itself labelled with the level nonterminal); convention-independent consequences are checked on all pairs"]
 
 
 def selftest():
@@ -166,12 +166,37 @@ def judge(case):
                         bad("level:" + res[op], op=op, T=T, a=a, b=b)
                 if any(isinstance(v, str) for v in res.values()):
                     continue
-                if lab[a] != T and lab[b] != T:
-                    A, B = anc(a, T), anc(b, T)
-                    e = {"EQ": A == B, "GE": A <= B, "LE": B <= A, "GT": A < B, "LT": B < A}
-                    for op in e:
-                        if res[op] != e[op]:
-                            bad("level:strict:" + op, T=T, a=a, b=b, expected=e[op], observed=res[op])
+                # Three readings of the informal description: S = set formulation over proper ancestors labelled T;
+                # C0/C1 = the definition documented in isla_predicates.level_check ("there has to be a common prefix
+                # of both paths pointing to a T node [or the empty prefix] such that the remaining path fragments ..."),
+                # with the argument node itself excluded from / included in its "remaining fragment".  They coincide
+                # unless an argument (or the root) is itself labelled T; a pair is judged strictly only where all
+                # three agree, so no reading is forced on the code.
+                A, B = anc(a, T), anc(b, T)
+                readings = [{"EQ": A == B, "GE": A <= B, "LE": B <= A, "GT": A < B, "LT": B < A}]
+                k = 0
+                while k < min(len(a), len(b)) and a[k] == b[k]:
+                    k += 1
+                prefixes = [()] + [a[:m] for m in range(1, k + 1) if lab[a[:m]] == T]
+                for incl in (0, 1):
+                    r = {op: False for op in ("EQ", "GE", "LE", "GT", "LT")}
+                    for pfx in prefixes:
+                        o1 = [a[:m] for m in range(len(pfx) + 1, len(a) + incl) if lab[a[:m]] == T]
+                        o2 = [b[:m] for m in range(len(pfx) + 1, len(b) + incl) if lab[b[:m]] == T]
+                        r["EQ"] |= (not o1 and not o2)
+                        r["GE"] |= (not o1)
+                        r["LE"] |= (not o2)
+                        r["GT"] |= (not o1 and bool(o2))
+                        r["LT"] |= (not o2 and bool(o1))
+                    readings.append(r)
+                for op in ("EQ", "GE", "LE", "GT", "LT"):
+                    vals = {rd[op] for rd in readings}
+                    if len(vals) == 1:
+                        e_op = vals.pop()
+                        if res[op] != e_op:
+                            bad("level:strict:" + op, T=T, a=a, b=b, expected=e_op, observed=res[op])
+                    else:
+                        labels.add("level_readings_differ")
                 if res["EQ"] and not (res["GE"] and res["LE"]):
                     bad("level:EQ_without_GE_LE", T=T, a=a, b=b, observed=res)
                 if res["GT"] and not res["GE"]:
